@@ -158,6 +158,23 @@ def body(prop, args, seed, t0):
 
     driver = common.Driver(prop)
 
+    # ---- 2b. the translator and its Python prelude are themselves compared with CPython / the Python functions
+    tie = {}
+    from harness import tables as _tables
+    if prop in _tables._specs() and driver.available():
+        from harness import prelude_check, translated_check
+        n1, bad1 = prelude_check.run(seed)
+        n2, bad2, untranslatable = translated_check.run(seed, only=prop)
+        tie = {"prelude_vs_cpython": n1, "translated_vs_python_function": n2,
+               "translated_functions": [f"{fn.__module__.split('quantum.')[-1]}.{fn.__name__} -> Translated.{nm}"
+                                        for fn, nm, *_ in _tables._specs()[prop]],
+               "untranslatable_now": untranslatable}
+        if bad1 or bad2:
+            for b in (bad1 + bad2)[:10]:
+                print("  translator/prelude disagreement:", b)
+            print(f"INTERNAL-ERROR property={prop} (the Python->Lean translation misrenders the code; no verdict)")
+            return 2
+
     # ---- 3. correspondence + oracle
     if args.replay:
         rp = json.load(open(args.replay))
@@ -262,7 +279,7 @@ def body(prop, args, seed, t0):
             "case_kinds": hist, "samples": [c for c in cases[:3]] + ([cases[-1]] if len(cases) > 3 else []),
             "mismatches": len(mismatches), "oracle_failures": len(oracle_fails),
             "known_findings_hit": sorted(seen), "search_cases": searched,
-            "generated_tables": extract_notes, **extra_cov,
+            "generated_tables": extract_notes, "translation_tie": tie, **extra_cov,
         },
         "assumptions": list(getattr(mod, "ASSUMPTIONS", [])),
         "wall_s": round(time.time() - t0, 2),
